@@ -646,6 +646,42 @@ func walkFlagBody(stmts []ast.Stmt, f flags, visit func(ast.Stmt), undecided *bo
 			}
 		case *ast.BlockStmt:
 			walkFlagBody(x.List, f, visit, undecided)
+		case *ast.SwitchStmt:
+			// a tag-less switch whose cases are flag conditions: the first case that holds, else the default
+			if x.Tag != nil || x.Init != nil {
+				visit(st)
+				continue
+			}
+			var chosen, deflt *ast.CaseClause
+			decidable := true
+			for _, cs := range x.Body.List {
+				cc := cs.(*ast.CaseClause)
+				if len(cc.List) == 0 {
+					deflt = cc
+					continue
+				}
+				if chosen != nil {
+					continue
+				}
+				for _, e := range cc.List {
+					v, ok := evalFlagCond(e, f)
+					if !ok {
+						decidable = false
+					} else if v && chosen == nil {
+						chosen = cc
+					}
+				}
+			}
+			if !decidable {
+				visit(st)
+				continue
+			}
+			if chosen == nil {
+				chosen = deflt
+			}
+			if chosen != nil {
+				walkFlagBody(chosen.Body, f, visit, undecided)
+			}
 		default:
 			visit(st)
 		}
@@ -677,15 +713,27 @@ func c17r4(c *an.Ctx) {
 			rhs := exprString(as.Rhs[0])
 			switch lhs {
 			case "reqArgs":
-				switch {
-				case strings.Contains(rhs, `d.Ident("context", "Context")`):
-					sh.args = append(sh.args, "ctx")
-				case strings.Contains(rhs, "d.InputType(method)"):
-					sh.args = append(sh.args, "in")
-				case strings.Contains(rhs, "d.ServerStreamIface(method)"):
-					sh.args = append(sh.args, "stream")
-				default:
-					sh.args = append(sh.args, "?"+rhs)
+				// each appended element on its own: append(reqArgs, a) or append(reqArgs, a, b)
+				elems := []string{rhs}
+				if call, isCall := as.Rhs[0].(*ast.CallExpr); isCall && len(call.Args) >= 2 {
+					if id, isId := call.Fun.(*ast.Ident); isId && id.Name == "append" {
+						elems = nil
+						for _, a := range call.Args[1:] {
+							elems = append(elems, exprString(a))
+						}
+					}
+				}
+				for _, el := range elems {
+					switch {
+					case strings.Contains(el, `d.Ident("context", "Context")`):
+						sh.args = append(sh.args, "ctx")
+					case strings.Contains(el, "d.InputType(method)"):
+						sh.args = append(sh.args, "in")
+					case strings.Contains(el, "d.ServerStreamIface(method)"):
+						sh.args = append(sh.args, "stream")
+					default:
+						sh.args = append(sh.args, "?"+el)
+					}
 				}
 			case "ret":
 				if strings.Contains(rhs, "d.OutputType(method)") {
@@ -700,7 +748,23 @@ func c17r4(c *an.Ctx) {
 	if mpk == nil {
 		panic(&an.Unresolved{What: "package drpcmux"})
 	}
-	ro := genFunc(mpk, "registerOne")
+	// the function that classifies a method expression by its argument and result counts (registerOne today)
+	var ro *ast.FuncDecl
+	for _, f := range mpk.Syntax {
+		for _, d := range f.Decls {
+			fd, ok := d.(*ast.FuncDecl)
+			if !ok || fd.Body == nil {
+				continue
+			}
+			src := nodeString(fd.Body)
+			if strings.Contains(src, ".NumIn()") && strings.Contains(src, ".NumOut()") && (ro == nil || fd.Name.Name == "registerOne") {
+				ro = fd
+			}
+		}
+	}
+	if ro == nil {
+		panic(&an.Unresolved{What: "the mux function that classifies method expressions by NumIn/NumOut"})
+	}
 	type muxCase struct {
 		numIn   int // required NumIn(), -1 if the case does not test it
 		numOut  int // required NumOut(), -1 if the case does not test it
@@ -712,6 +776,26 @@ func c17r4(c *an.Ctx) {
 	hasDefaultErr, unknownCase := false, false
 	ast.Inspect(ro.Body, func(n ast.Node) bool {
 		sw, ok := n.(*ast.SwitchStmt)
+		if ifs, isIf := n.(*ast.IfStmt); isIf && !ok {
+			// the same classification written as an if / else-if / else chain
+			var clauses []ast.Stmt
+			cur := ifs
+			for cur != nil {
+				clauses = append(clauses, &ast.CaseClause{List: []ast.Expr{cur.Cond}, Body: cur.Body.List})
+				switch e := cur.Else.(type) {
+				case *ast.IfStmt:
+					cur = e
+				case *ast.BlockStmt:
+					clauses = append(clauses, &ast.CaseClause{Body: e.List})
+					cur = nil
+				default:
+					cur = nil
+				}
+			}
+			if len(clauses) >= 3 {
+				sw, ok = &ast.SwitchStmt{Body: &ast.BlockStmt{List: clauses}}, true
+			}
+		}
 		if !ok {
 			return true
 		}
@@ -804,18 +888,43 @@ func c17r4(c *an.Ctx) {
 				if !ok || len(as.Lhs) != 1 {
 					continue
 				}
-				lhs, rhs := exprString(as.Lhs[0]), exprString(as.Rhs[0])
-				switch lhs {
-				case "data.unitary":
-					mc.unitary = rhs == "true"
-				case "data.in1":
-					if rhs == "streamType" {
-						mc.in1 = "stream"
-					} else if m := regexp.MustCompile(`\.In\((\d+)\)`).FindStringSubmatch(rhs); m != nil {
-						mc.in1 = "In(" + m[1] + ")"
+				// which field of the per-RPC record is set (whatever the local holding it is called)
+				field := ""
+				if se, isSel := as.Lhs[0].(*ast.SelectorExpr); isSel {
+					field = se.Sel.Name
+				}
+				rhs := exprString(as.Rhs[0])
+				isStreamType := func(e ast.Expr) bool {
+					id, isId := e.(*ast.Ident)
+					return isId && id.Name == "streamType"
+				}
+				// mt.In(k) with k a literal or a named constant
+				inIndex := func(e ast.Expr) (int, bool) {
+					call, isCall := e.(*ast.CallExpr)
+					if !isCall || len(call.Args) != 1 {
+						return 0, false
 					}
-				case "data.in2":
-					mc.in2 = rhs == "streamType"
+					se, isSel := call.Fun.(*ast.SelectorExpr)
+					if !isSel || se.Sel.Name != "In" {
+						return 0, false
+					}
+					if tv, ok := mpk.TypesInfo.Types[call.Args[0]]; ok && tv.Value != nil {
+						v, _ := constant.Int64Val(tv.Value)
+						return int(v), true
+					}
+					return 0, false
+				}
+				switch field {
+				case "unitary":
+					mc.unitary = rhs == "true"
+				case "in1":
+					if isStreamType(as.Rhs[0]) {
+						mc.in1 = "stream"
+					} else if k, ok := inIndex(as.Rhs[0]); ok {
+						mc.in1 = fmt.Sprintf("In(%d)", k)
+					}
+				case "in2":
+					mc.in2 = isStreamType(as.Rhs[0])
 				}
 			}
 			cases = append(cases, mc)
